@@ -76,6 +76,18 @@ def roundtrip(t, case, setting, labels, backward_first=False):
             f"back={xb.flat[i]!r} rel.err={err.flat[i]:.3e} "
             f"params={dict(zip(t.params.names, t.params.values))} "
             f"constants={dict(zip(t.constants.names, t.constants.values))}")
+    # the same points as 2-D arrays: same values element by element
+    if cls != "Softmax" and len(x) >= 2:
+        for shp in ((1, len(x)), (len(x), 1)) + (
+                ((2, len(x) // 2),) if len(x) % 2 == 0 else ()):
+            y2 = t.forward(x.reshape(shp).copy())
+            x2 = t.backward(y.reshape(shp).copy())
+            if np.shape(y2) != shp or np.shape(x2) != shp or \
+                    not np.array_equal(np.ravel(y2), y, equal_nan=True) or \
+                    not np.array_equal(np.ravel(x2), xb, equal_nan=True):
+                raise Violation(f"forward / backward of the points given as "
+                                f"an array of shape {shp} differ from the "
+                                f"1-D calls; params={t.params.values}")
     yb = t.forward(xb.copy())
     err = np.abs(yb - y) / (1 + np.abs(y))
     if not np.all(err <= TOL):
